@@ -6,6 +6,7 @@ import (
 	"os"
 	"runtime"
 	"strings"
+	"syscall"
 	"testing"
 	"time"
 
@@ -36,11 +37,13 @@ type Case struct {
 	Abandon bool
 	// FullSweep: every (column,value) pair is probed, none strided over
 	FullSweep bool
+	// BigMisuse: see bigMisuse (0 = none)
+	BigMisuse int
 }
 
 func (c *Case) Summary() string {
 	var b strings.Builder
-	fmt.Fprintf(&b, "%s tag=%v bystander-files=%v abandon-one=%v opens=%v extra[%d]", c.Data.Summary(), c.Tag, c.Bystanders, c.Abandon, c.Reopens, len(c.Extra))
+	fmt.Fprintf(&b, "%s tag=%v bystander-files=%v abandon-one=%v big-writer-misuse=%d opens=%v extra[%d]", c.Data.Summary(), c.Tag, c.Bystanders, c.Abandon, c.BigMisuse, c.Reopens, len(c.Extra))
 	return b.String()
 }
 
@@ -148,6 +151,11 @@ func oracle(c *Case) error {
 				return fmt.Errorf("writer %s, close #%d: %v", fix.WriterName[w], k, cerr)
 			}
 		}
+		if c.BigMisuse > 0 && w == fix.WBig {
+			if err := bigMisuse(dir, rows, c.BigMisuse); err != nil {
+				return err
+			}
+		}
 		if c.Abandon {
 			// two Index objects on one caller-owned bbolt handle; the first is
 			// dropped without Close and the garbage collector runs: the second
@@ -160,6 +168,116 @@ func oracle(c *Case) error {
 		os.Remove(path)
 	}
 	return nil
+}
+
+// bigMisuse: the big writer used in a legal but unexpected order.  Whatever
+// Flush then does, if it returns nil the output must be the complete index of
+// all rows whose AddRow returned without error.
+//
+//	kind 1: AddRow..., Close, Flush
+//	kind 2: AddRow..., Flush, Flush
+//	kind 3: AddRow (some under a file size limit that makes a temp commit fail), ..., Flush
+func bigMisuse(dir string, rows []model.Row, kind int) error {
+	return fix.Safe(func() error {
+		out, tmp := fix.TempPath(dir, "big-misuse")+".updog", fix.TempPath(dir, "big-misuse")+".tmp"
+		tdb, err := bbolt.Open(tmp, 0o600, nil)
+		if err != nil {
+			return fmt.Errorf("INFRA: %v", err)
+		}
+		defer tdb.Close()
+		db, err := bbolt.Open(out, 0o644, nil)
+		if err != nil {
+			return fmt.Errorf("INFRA: %v", err)
+		}
+		w, err := updog.NewBigIndexWriter(db, tdb)
+		if err != nil {
+			db.Close()
+			return fmt.Errorf("NewBigIndexWriter: %v", err)
+		}
+		defer w.Close()
+		var added []model.Row
+		addAll := func(rs []model.Row) {
+			for _, r := range rs {
+				// an AddRow that returns an error or panics did not add the row;
+				// how usable the writer is after such a failure is no listed
+				// property's business - only what a nil from Flush promises is
+				if err := fix.Safe(func() error { _, e := w.AddRow(r); return e }); err == nil {
+					added = append(added, r)
+				}
+			}
+		}
+		var ferr error
+		switch kind {
+		case 1:
+			addAll(rows)
+			w.Close()
+			ferr = fix.Safe(w.Flush)
+		case 2:
+			addAll(rows)
+			if err := w.Flush(); err != nil {
+				db.Close()
+				return fmt.Errorf("first Flush: %v", err)
+			}
+			ferr = fix.Safe(w.Flush)
+		default:
+			third := len(rows) / 3
+			addAll(rows[:third])
+			// the temp database cannot grow for a while: commits of the temp
+			// transaction (every 1000 rows) fail with EFBIG
+			withFileSizeLimit(1, func() error { addAll(rows[third : 2*third]); return nil })
+			addAll(rows[2*third:])
+			ferr = fix.Safe(w.Flush)
+		}
+		db.Close()
+		if ferr != nil {
+			return nil // refusing is fine
+		}
+		d := model.NewData(added)
+		idx, _, oerr := fix.Open(out, fix.OpenCfg{CacheCap: -1})
+		if oerr != nil {
+			return fmt.Errorf("big writer misuse %d: Flush returned nil but the output does not open: %v", kind, oerr)
+		}
+		defer fix.Safe(idx.Close)
+		if len(added) < len(rows) {
+			// some AddRow calls failed: whether such a row is (partly) in the
+			// index is nobody's promise; the rows whose AddRow succeeded are
+			n := 0
+			for _, c := range d.Columns() {
+				for _, v := range d.Values(c) {
+					if n++; n > 3000 {
+						break
+					}
+					res, err := fix.Exec(idx, fix.NewQuery(model.Eq(c, v), nil))
+					if err != nil {
+						return fmt.Errorf("big writer misuse %d: Flush returned nil; %+q=%+q was added by successful AddRow calls but the index answers: %v", kind, c, v, err)
+					}
+					if want := uint64(d.ValueCount(c, v)); res.Count < want {
+						return fmt.Errorf("big writer misuse %d (temp commits failing for a while): Flush returned nil; %+q=%+q was added to %d rows by AddRow calls that returned without error, the index holds it for %d", kind, c, v, want, res.Count)
+					}
+				}
+			}
+			return nil
+		}
+		if perr := fix.ProbeAll(idx, d, fix.ProbeOpts{MaxRows: 500, MaxValues: 3000}); perr != nil {
+			return fmt.Errorf("big writer misuse %d (1 Close before Flush, 2 Flush twice, 3 temp commits failing for a while): Flush returned nil, %d of %d AddRow calls had returned without error, but the output is not the index of those rows: %v", kind, len(added), len(rows), perr)
+		}
+		return nil
+	})
+}
+
+func withFileSizeLimit(limit int, f func() error) error {
+	var old syscall.Rlimit
+	const rlimitFsize = 1
+	if err := syscall.Getrlimit(rlimitFsize, &old); err != nil {
+		return f()
+	}
+	low := old
+	low.Cur = uint64(limit)
+	if err := syscall.Setrlimit(rlimitFsize, &low); err != nil {
+		return f()
+	}
+	defer syscall.Setrlimit(rlimitFsize, &old)
+	return f()
 }
 
 func abandonOne(path string, d *model.Data, uniq string) error {
@@ -222,6 +340,7 @@ func classify(c *Case) (bool, []string) {
 }
 
 func run(t interface{ Fatalf(string, ...any) }, c *Case) {
+	defer fix.Track(prop, "roundtrip", c, c.Summary())()
 	nt, cl := classify(c)
 	evid.Case(nt, c.Summary(), cl...)
 	if err := oracle(c); err != nil {
@@ -232,6 +351,9 @@ func run(t interface{ Fatalf(string, ...any) }, c *Case) {
 func drawCase(t *rapid.T, o gen.DataOpts) *Case {
 	ds := gen.Dataset(t, o)
 	c := &Case{Data: *ds, Tag: rapid.Bool().Draw(t, "tag"), Bystanders: rapid.IntRange(0, 3).Draw(t, "bystanders") == 0, Abandon: rapid.IntRange(0, 4).Draw(t, "abandon") == 0}
+	if rapid.IntRange(0, 3).Draw(t, "bigmisuse?") == 0 {
+		c.BigMisuse = rapid.IntRange(1, 3).Draw(t, "bigmisuse")
+	}
 	rows, _ := c.rows()
 	d := model.NewData(rows)
 	pool := gen.NewLeafPool(d)
@@ -371,6 +493,7 @@ func rewriteOracle(c *RewriteCase) error {
 }
 
 func runRewrite(t interface{ Fatalf(string, ...any) }, c *RewriteCase) {
+	defer fix.Track(prop, "rewrite", c, c.Summary())()
 	evid.Case(len(c.A.Rows()) > 0 && len(c.B.Rows()) > 0, c.Summary(), "rewrite")
 	if err := rewriteOracle(c); err != nil {
 		fix.Fail(t, prop, "rewrite", c, c.Summary(), err)
